@@ -383,8 +383,8 @@ func runAll(c *run.Ctx) {
 	}
 	// counts that need the third byte of the 32-bit count field (>= 2^16), in every byte-order assignment
 	bidx := 0
-	for _, bn := range []int{65535, 65536, 65537, 70001, 131072 + 5} {
-		for _, kind := range []int{0, 1, 2, 4, 5} {
+	for _, bn := range []int{65535, 65536, 65537, 70001} {
+		for _, kind := range []int{0, 2, 4} {
 			bidx++
 			bn, kind := bn, kind
 			ct := model.CTypes[bidx%4]
